@@ -251,12 +251,16 @@ def postAct (S : SF) (cfg : Cfg) (ex : String → Extract) (i : Info) (dnr : Int
     .extract kids outs
   else .extract [] []
 
+/-- `GetDepthWithoutRedirections` of a node from its parent's: a redirected node does not count -/
+def nodeDnr (isSeed : Bool) (st : Status) (pdnr : Int) : Int :=
+  if isSeed then (if st == .gotRedirected then -1 else 0)
+  else (if st == .gotRedirected then pdnr else pdnr + 1)
+
 mutual
 def _root_.Zeno.Model.Item.Tree.post (S : SF) (cfg : Cfg) (ex : String → Extract) (d lvl : Nat) (pdnr : Int) (isSeed : Bool) :
     Tree → Tree × List Outlink
   | .node i k =>
-    let dnr : Int := if isSeed then (if i.st == .gotRedirected then -1 else 0)
-      else (if i.st == .gotRedirected then pdnr else pdnr + 1)
+    let dnr : Int := nodeDnr isSeed i.st pdnr
     if lvl == d then
       if i.st == .archived then
         match postAct S cfg ex i dnr with
